@@ -30,7 +30,11 @@ LEVEL_TEXT = (
     "leaf convention (default mode: base values and productions without fields are leaves of height 0 that are "
     "not counted, pinned by tests/representations/tree_based/relabel_test.py; expansion-depthing mode: leaves "
     "count 1 and every abstract expansion on the way to a child - the shortest chain, R6 - adds one node and one "
-    "level). Decided for non-list children; list nodes are a known finding."
+    "level). (R8) reused material: mutate is interpreted with donor material whose subtree carries its labels; "
+    "what comes back is the donor's own object or a new object that does not keep the donor's 'labelled' flag "
+    "together with an index whose entry for its own type is the donor's node (a shallow copy would make "
+    "relabel_nodes return early and leave the offspring's index describing the donor). Decided for non-list "
+    "children; list nodes are a known finding."
 )
 
 RELABEL = "geneticengine.representations.tree.utils:relabel_nodes"
